@@ -69,6 +69,11 @@ def _pool(seed, n):
     for t in ["lunch tomorrow 5pm bob #work", "call anna am freitag um 8 uhr", "report due end of month #q"]:
         for v in (t, t.title(), t.upper(), t.replace(" ", ", ")):
             entries.append({"t": v, "ts": "2021-03-10T12:43:30", "o": {"latent_time": True, "max_stack_depth": 10, "relative_match_len": 1.0, "scorer": "shipped"}})
+    # several labels, one of them written twice, with and without a time expression (anything that passes labels or words
+    # through a set shows its dependence on the string-hash seed here)
+    for t in ["#family call mom #urgent tomorrow 5pm #phone #family", "#b2 #a1 #c3 #b2 note for bob", "pay rent #home #money #home #q1 am freitag",
+              "#zeta #alpha #mid #alpha #zeta #omega", "walk the dog #dog #park #dog #park #rain heute abend"]:
+        entries.append({"t": t, "ts": "2021-03-10T12:43:30", "o": {"latent_time": True, "max_stack_depth": 10, "relative_match_len": 1.0, "scorer": "shipped"}})
     # the same text under different ts / options
     for i in range(0, min(12, len(texts))):
         entries.append({"t": texts[i], "ts": tss[(i + 1) % len(tss)], "o": {"latent_time": i % 2 == 0, "max_stack_depth": 10, "relative_match_len": 1.0, "scorer": "shipped"}})
